@@ -50,6 +50,8 @@ class Plan(object):
         # hooks wrapped with the documented behave.log_capture.capture decorator:
         # None | "plain" (@capture) | "error" (@capture(level=logging.ERROR))
         self.capture_hooks = program.get("capture_hooks")
+        # the environment file defines no before_all hook (behave then installs its default one, which sets up logging)
+        self.no_before_all = bool(program.get("no_before_all"))
 
 
 _EXC = {"Exception": RuntimeError, "AssertionError": AssertionError, "KeyboardInterrupt": KeyboardInterrupt}
